@@ -505,3 +505,5 @@ MANIFEST = {
     'technique': 'dominance + path enumeration with blocked-edge reachability + call-context classification',
     'design_ref': 'DESIGN.md 3/C03',
 }
+MANIFEST['note'] += (' Also decided here (necessary conditions shared between properties or added after the independent '
+                     'change rounds, DESIGN.md 8.7): ICV table (from C07), the controller answers only with what process_message returned, entries removed only when observed DELETED.')
